@@ -86,6 +86,21 @@ WhyNotMatch(o, exp, rtol) ==
   ELSE IF \E i \in DOMAIN exp : ~(o.chains[i].isrange <=> EquallySpaced(exp[i].idl)) THEN "idl form"
   ELSE "stored numbers"
 
+\* ---- the flow scale: root of the local linear fit (fit_t0) ------------------------------------------------------
+\* flow times x[1..n] (increasing), central values y, errors dy of t^2 E(t) - target (rising through zero);
+\* zc = number of points before the first positive one; the fit window holds `fr` points on either side of the crossing,
+\* cut off at the end of the data; the weighted straight line n + m x through the window has its root at -n / m
+ZeroCrossing(y) == Min({i \in DOMAIN y : RLt("0", y[i])}) - 1
+T0Window(n, zc, fr) == (zc - fr + 1)..(IF zc + fr < n THEN zc + fr ELSE n)
+LinFitRoot(x, y, dy, win) ==
+  LET w == [i \in win |-> RDiv("1", RSq(dy[i]))]
+      S(f(_)) == LET seq == SetToSortSeq(win, <) IN RSumSeq([k \in DOMAIN seq |-> RMul(w[seq[k]], f(seq[k]))])
+      S0 == S(LAMBDA i : "1")  Sx == S(LAMBDA i : x[i])  Sy == S(LAMBDA i : y[i])
+      Sxx == S(LAMBDA i : RSq(x[i]))  Sxy == S(LAMBDA i : RMul(x[i], y[i]))
+      m == RDiv(RSub(RMul(S0, Sxy), RMul(Sx, Sy)), RSub(RMul(S0, Sxx), RSq(Sx)))
+      nn == RDiv(RSub(Sy, RMul(m, Sx)), S0)
+  IN RNeg(RDiv(nn, m))
+
 \* ---- truncation ---------------------------------------------------------------------------------------------
 \* the file of replica r cut after `cut` bytes keeps the records that end at or before the cut (bounds[i] = <<start, end>>)
 Kept(rep, bounds, cut) == SelectSeq([i \in DOMAIN rep.recs |-> i], LAMBDA i : bounds[i][2] <= cut)
